@@ -77,7 +77,9 @@ Inductive op :=
 | OWalk (fid newfid : N) (names : list bstr)
 | OOpen (fid mode : N)
 | OCreate (fid : N) (name : bstr) (mode : N)
-| ORead (fid : N) | OWrite (fid : N) | OStat (fid : N) | OWStat (fid : N)
+| ORead (fid cnt : N)   (* cnt: capacity of the buffer *)
+| OWrite (fid : N)     (* the buffer (nil, empty or not) plays no part in the session *)
+| OStat (fid : N) | OWStat (fid : N)
 | OClunk (fid : N) | ORemove (fid : N)
 | OStop.
 
@@ -273,7 +275,7 @@ Definition do_create (s : sess) (fid : N) (name : bstr) (mode : N) (ts : list to
   end.
 
 (* ---- Read / Write ---- *)
-Definition do_read (s : sess) (fid : N) (ts : list tok) : R3 :=
+Definition do_read (s : sess) (fid cnt : N) (ts : list tok) : R3 :=
   match get_ref s fid with
   | GHang => (s, RHang, [])
   | GErr => (s, RErr EUnknown, [])
@@ -283,8 +285,9 @@ Definition do_read (s : sess) (fid : N) (ts : list tok) : R3 :=
       | Some f =>
           if N.land (s_mode sf) 3 =? 1 then (s, RErr ENoread, []) else
           if f_dir f then
-            (* Readdir.Read at offset 0 -> mkNext1: no call once [done] *)
-            if f_done f then (s, ROk 0, []) else
+            (* Readdir.Read at offset 0: fills the buffer while len(p) < cap(p) - not at all for an
+               empty (or nil) buffer; mkNext1: no call once [done] *)
+            if f_done f || (cnt =? 0) then (s, ROk 0, []) else
             let s1 := g_use (f_own f) s in
             if fs_err (tokn ts 0) then (s1, RErr EFs, [CNext (f_own f)])
             else (put fid (Some e) (Some (Fh (f_own f) true true)) (s_mode sf) s1, ROk 0, [CNext (f_own f)])
@@ -341,7 +344,7 @@ Definition sstep (s : sess) (o : op) (ts : list tok) : R3 :=
   | OWalk fid newfid names => do_walk s fid newfid names ts
   | OOpen fid mode => do_open s fid mode ts
   | OCreate fid name mode => do_create s fid name mode ts
-  | ORead fid => do_read s fid ts
+  | ORead fid cnt => do_read s fid cnt ts
   | OWrite fid => do_write s fid ts
   | OStat fid => do_stat s fid false ts
   | OWStat fid => do_stat s fid true ts
